@@ -107,13 +107,14 @@ let () =
               | [a; b] -> (trim a, trim b) | [a] -> (trim a, "?") | _ -> (opres, "?") in
             Buffer.add_string opsig op; Buffer.add_char opsig ';';
             let f = Array.of_list (List.filter (fun s -> s <> "") (split_on op " ")) in
-            let i = int_of_string f.(1) in
+            let i = (try int_of_string f.(1) with _ -> 0) in
             let ckind = (match toks with _ :: k :: _ -> k | _ -> "productions") in
             let expect = match ckind, f.(0) with
               | "productions", "A" -> Hashtbl.replace present i (); "ok"
               | "productions", ("R" | "X") -> if Hashtbl.mem present i then incr evs; Hashtbl.remove present i; "ok"
               | "productions", "G" -> if Hashtbl.mem present i then "1" else "0"
               | "firstfollow", "B" -> if i > 40 then incr evs; "ok"
+              | "firstfollow", "C" -> incr evs; "ok"
               | "firstfollow", "F" -> "1"
               | "firstfollow", "W" -> "0"
               | "lrtable", "N" -> "ok"
